@@ -404,7 +404,7 @@ func run(id string, cfg config, tier string, seed int64, work string, replayPath
 	wg.Wait()
 
 	merged := core.Stats{Classes: map[string]int64{}, Known: map[string]int64{}, KnownMsg: map[string]string{}, Extra: map[string]interface{}{}, Rules: map[string]string{}, Exhaustive: map[string]bool{}}
-	distinct := map[uint64]struct{}{}
+	var allHashes []uint64
 	inconclusive := ""
 	var replayFiles []string
 	hangFiles := map[string]bool{}
@@ -449,9 +449,8 @@ func run(id string, cfg config, tier string, seed int64, work string, replayPath
 			}
 		}
 		merged.Samples = append(merged.Samples, st.Samples[:n]...)
-		for _, h := range r.hashes {
-			distinct[h] = struct{}{}
-		}
+		allHashes = append(allHashes, r.hashes...)
+		results[i].hashes = nil
 		if st.Hang != nil && st.Violation == nil {
 			st.Violation = st.Hang
 			hangFiles[fmt.Sprintf("%s-%s-seed%d-shard%d.json", id, tier, seed, i)] = true
@@ -476,6 +475,16 @@ func run(id string, cfg config, tier string, seed int64, work string, replayPath
 			}
 		}
 	}
+
+	// distinct non-trivial cases across shards: sort the hashes and count the unique ones
+	sort.Slice(allHashes, func(i, j int) bool { return allHashes[i] < allHashes[j] })
+	distinctCount := 0
+	for i, h := range allHashes {
+		if i == 0 || h != allHashes[i-1] {
+			distinctCount++
+		}
+	}
+	allHashes = nil
 
 	// confirm each violation in a fresh process (up to 3 tries; a failure that never reproduces is
 	// inconclusive, not a verdict)
@@ -528,7 +537,7 @@ func run(id string, cfg config, tier string, seed int64, work string, replayPath
 	}
 	cov := map[string]interface{}{
 		"evaluations":               merged.Evaluations,
-		"distinct_nontrivial":       int64(len(distinct)) + merged.Enumerated,
+		"distinct_nontrivial":       int64(distinctCount) + merged.Enumerated,
 		"nontrivial_with_duplicates": merged.NonTrivial,
 		"vacuous":                   merged.Vacuous,
 		"rule":                      strings.Join(ruleParts, " || "),
@@ -573,7 +582,7 @@ func run(id string, cfg config, tier string, seed int64, work string, replayPath
 	for _, k := range core.SortedKeys(merged.Known) {
 		fmt.Printf("  cases attributed to %s during the search: %d (e.g. %s)\n", k, merged.Known[k], oneLine(merged.KnownMsg[k]))
 	}
-	fmt.Printf("%s %s seed=%d: %d evaluations, %d distinct non-trivial, %d violations, %.1fs\n", id, tier, seed, merged.Evaluations, int64(len(distinct))+merged.Enumerated, violations, time.Since(start).Seconds())
+	fmt.Printf("%s %s seed=%d: %d evaluations, %d distinct non-trivial, %d violations, %.1fs\n", id, tier, seed, merged.Evaluations, int64(distinctCount)+merged.Enumerated, violations, time.Since(start).Seconds())
 	if violations > 0 {
 		for _, l := range violationLines {
 			fmt.Println(l)
